@@ -225,6 +225,8 @@ class RunModel(Analysis):
             return False
         if relevant:
             return True
+        if func.cls is r.window_cls and sig.stores:
+            return True         # the window's own bookkeeping (a flag that closes it, a count of what is left)
         # effect-free helper: worth walking only when its value is used
         if func.is_async:
             if any(isinstance(n, ast.Return) and n.value is not None
@@ -267,7 +269,8 @@ class RunModel(Analysis):
                 sig = self.sigs.get(callee.qualname)
                 helper_obj = callee.cls is not None and callee.cls.name.startswith('_') and recv is not None \
                     and recv[0] == 'new'
-                if sig is not None and not helper_obj and not (
+                own_state = callee.cls is self.roles.window_cls and bool(sig and sig.stores)
+                if sig is not None and not helper_obj and not own_state and not (
                         sig.suspends or sig.spawns or sig.cancels or sig.raises
                         or (sig.stores & self.roles.data_attrs)):
                     self.skipped.add(callee.qualname)
@@ -419,6 +422,9 @@ class RunModel(Analysis):
             if not nonblocking:
                 out += self.cancel_edge(ip, node, st, fr, "CancelledError delivered at queue.%s" % t[2])
             st2 = self.slot(ip, node, kind, t[1], st, fr, awaited=True)
+            if not nonblocking:
+                # the wait for a slot lets other tasks run: what was read from attributes before is stale
+                st2 = st2.forget(lambda s: T.is_attr(s) or s[0] == 'mcall')
             out.append((st2, ('unk', 'q'), None))
             return out
         if (t[0] == 'mcall' and t[2] == 'co_run') or (t[0] == 'coro' and self._is_member_corun(t)):
@@ -429,6 +435,13 @@ class RunModel(Analysis):
                 out.append((st.note(ip.where(node, fr), "the job body raises"), None, ('BodyExc',)))
             y = st.forget(lambda s: T.is_attr(s) or s[0] == 'mcall')
             out.append((y.set(body_done=True), T.mk(('bodyresult', job if job is not None else ('unk', 'job'))), None))
+            return out
+        if (t[0] == 'mcall' and t[2] == 'create_future' and not t[3]) or \
+                (t[0] == 'call' and t[1] in ('asyncio.Future', 'Future') and not t[2]):
+            # a future made on the spot and awaited: nobody else holds it, nothing can complete it - this await
+            # only ever ends by cancellation (a task that parks itself until its scheduler cancels it)
+            self.ev(ip, 'PARK', node, st, fr, slot=st.a('slot', 'Free'))
+            out = self.cancel_edge(ip, node, st, fr, "CancelledError delivered to a parked task")
             return out
         # any other await: note whether it may suspend (for once-guard rules)
         if ip.term_may_suspend(t) and not (t[0] == 'coro' and self._inlinable(ip, t, fr)):
@@ -596,8 +609,19 @@ class RunModel(Analysis):
                 st = st.set(count_ok=term)
         if ((term[0] == 'mcall' and term[2] == 'is_critical') or T.is_attr(term, 'critical')) \
                 and not ip.in_summary and term[1] == T.mk(('var', self.roles.wrap_jobvar)):
-            # criticality of a job is configuration: what a branch learnt stays true
+            # criticality of a job is configuration: what a branch learnt stays true (a later test of it on the
+            # same path cannot come out the other way, even where the fact itself was dropped at a join)
+            known = st.a('crit')
+            if known is not None and known[0] == term and known[1] != val:
+                return None
             st = st.set(crit=(term, val))
+        if ((term[0] == 'mcall' and term[2] == 'is_forever') or T.is_attr(term, 'forever')) \
+                and not ip.in_summary and term[1] == T.mk(('var', self.roles.wrap_jobvar)):
+            # ... and so is `forever`
+            known = st.a('fvr')
+            if known is not None and known[0] == term and known[1] != val:
+                return None
+            st = st.set(fvr=(term, val))
         if term == T.mk(('attr', T.SELF, 'jobs')) and not val and st.a('phase', 'NoTasks') == 'NoTasks':
             st = st.set(no_members=True)
         g = self.roles.guard_attr
@@ -690,6 +714,16 @@ class RunModel(Analysis):
                     phase=st.a('phase', 'NoTasks'), slot=st.a('slot', 'Free'), nwait=st.a('nwait', 0),
                     nstart=st.a('nstart', 0), depth=fr.depth)
         upd = {}
+        root = getattr(ip, 'root', None)
+        if obj == T.SELF and root is not None and root.func.cls is r.window_cls and fr.func.name != '__init__':
+            # the window's own state, written by the wrapper (a flag that closes it, a count of what is left)
+            self.ev(ip, 'WSTORE', node, st, fr, attr=attr, val=val, aug=aug, slot=st.a('slot', 'Free'),
+                    body_done=bool(st.a('body_done')), wdec=st.a('wdec', frozenset()))
+            if val == T.TRUE and aug is None:
+                upd['wset'] = st.a('wset', frozenset()) | {attr}
+            if aug == 'Sub' or (aug is None and val[0] == 'binop' and val[1] == 'Sub'
+                                and val[2] == T.mk(('attr', T.SELF, attr))):
+                upd['wdec'] = st.a('wdec', frozenset()) | {attr}
         if obj == T.SELF and attr == r.timeout_flag:
             upd['tf'] = 'unset' if val == T.FALSE else 'set'
         if obj == T.SELF and attr == r.critical_flag:
